@@ -3,8 +3,11 @@ package govc
 import (
 	"fmt"
 	"go/ast"
+	"go/constant"
 	"go/token"
 	"go/types"
+	"os"
+	"sort"
 	"strings"
 
 	"golang.org/x/tools/go/ssa"
@@ -291,13 +294,13 @@ func (x *Exec) reportSpecErrors(e *SpecEnv, fn string, c *Clause) {
 
 // modTarget describes one declared modifies target after evaluation.
 type modTarget struct {
-	kind  string // "range" (slice element range), "loc" (single location), "field" (whole field), "elems" (whole Elem<T>)
-	sl    SliceV
-	lo    *Term
-	hi    *Term
-	loc   LocV
-	key   string
-	elem  types.Type
+	kind string // "range" (slice element range), "loc" (single location), "field" (whole field), "elems" (whole Elem<T>)
+	sl   SliceV
+	lo   *Term
+	hi   *Term
+	loc  LocV
+	key  string
+	elem types.Type
 }
 
 func (x *Exec) evalModifies(c *Clause, env *SpecEnv) (modTarget, bool) {
@@ -402,6 +405,14 @@ func (x *Exec) havocForCall(n *node, fs *FuncSpec, cs *Case, callee *ssa.Functio
 			// against the callee's body): nothing the caller can see changes
 			return
 		}
+	}
+	if os.Getenv("GOVC_WRITES") != "" {
+		var ks []string
+		for k := range x.P.Writes(callee) {
+			ks = append(ks, k)
+		}
+		sort.Strings(ks)
+		fmt.Fprintf(os.Stderr, "WRITES %s: %v\n", callee.Name(), ks)
 	}
 	for k := range x.P.Writes(callee) {
 		if strings.HasPrefix(k, "deref:") {
@@ -805,6 +816,10 @@ func (x *Exec) applyGhostSet(c *Clause, env *SpecEnv, st *State) {
 		switch v := env.eval(c.Expr).(type) {
 		case Scalar:
 			rhs = v.T
+		case UConst:
+			if iv, ok := constant.Int64Val(constant.ToInt(v.V)); ok {
+				rhs = IntLit(iv)
+			}
 		case SliceV:
 			if v.Str {
 				rhs = x.sid(v)
